@@ -24,12 +24,18 @@ pub struct Scenario {
     pub cost_node_ns: u64,
     /// Some(i): the go at line i must arm the same budget as in a fresh process
     pub fresh_of: Option<usize>,
+    /// (global clock read index, jump in ns): the process was descheduled there; and what one
+    /// clock read costs. Time passes outside the searches too (while a position command is
+    /// handled, between go and the arming of the timer): none of it is the budget's business
+    pub stalls: Vec<(u64, u64)>,
+    pub cost_read_ns: u64,
 }
 
 impl Scenario {
     pub fn to_json(&self) -> Value {
         json!({"lines": self.lines, "twins": self.twins.iter().map(|(a, b)| json!([a, b])).collect::<Vec<_>>(),
-            "key_seed": self.key_seed, "forced_all": self.forced_all, "cost_node_ns": self.cost_node_ns, "fresh_of": self.fresh_of})
+            "key_seed": self.key_seed, "forced_all": self.forced_all, "cost_node_ns": self.cost_node_ns, "fresh_of": self.fresh_of,
+            "stalls": self.stalls.iter().map(|(a, b)| json!([a, b])).collect::<Vec<_>>(), "cost_read_ns": self.cost_read_ns})
     }
     pub fn from_json(v: &Value) -> Option<Scenario> {
         Some(Scenario {
@@ -42,12 +48,16 @@ impl Scenario {
             forced_all: v["forced_all"].as_u64(),
             cost_node_ns: v["cost_node_ns"].as_u64().unwrap_or(0),
             fresh_of: v["fresh_of"].as_u64().map(|x| x as usize),
+            stalls: v["stalls"].as_array().map(|a| a.iter().filter_map(|p| Some((p[0].as_u64()?, p[1].as_u64()?))).collect()).unwrap_or_default(),
+            cost_read_ns: v["cost_read_ns"].as_u64().unwrap_or(0),
         })
     }
     fn sim_state(&self) -> SimState {
         let mut st = SimState::new(self.key_seed, 0);
         st.clock.forced_all = self.forced_all;
         st.clock.cost_node_ns = self.cost_node_ns;
+        st.clock.cost_read_ns = self.cost_read_ns;
+        st.clock.stalls = self.stalls.clone();
         st.max_nodes_per_search = 3_000_000;
         st.ev(&format!("cfg c12 key_seed={} forced_all={:?} cost_node={}", self.key_seed, self.forced_all, self.cost_node_ns));
         st
@@ -224,6 +234,8 @@ pub fn judge(sc: &Scenario, rep: &LoopReport) -> Judged {
                     forced_all: sc.forced_all,
                     cost_node_ns: sc.cost_node_ns,
                     fresh_of: None,
+                    stalls: vec![],
+                    cost_read_ns: sc.cost_read_ns,
                 };
                 let rep_f = run_explicit(&fresh);
                 let lf = armed_budgets(&rep_f).get(1).cloned().flatten();
@@ -365,8 +377,14 @@ fn go_line(rng: &mut Rng, white_to_move: bool, rem: u64, inc: u64, orem: u64, oi
     }
     rng.shuffle(&mut toks);
     let mut s = "go".to_string();
+    // one go in thirty writes its numbers with leading zeros (up to 24 digits): the same values
+    let pad = if rng.chance(1, 30) { rng.range(1, 24) as usize } else { 0 };
     for (k, v) in toks {
-        s.push_str(&format!(" {} {}", k, v));
+        if pad > 0 {
+            s.push_str(&format!(" {} {:0>width$}", k, v, width = pad));
+        } else {
+            s.push_str(&format!(" {} {}", k, v));
+        }
     }
     s
 }
@@ -384,7 +402,17 @@ pub fn generate(seed: u64, long: bool) -> Scenario {
         forced_all: forced,
         cost_node_ns: if forced.is_some() { 0 } else { rng.log_range(200_000, 5_000_000) },
         fresh_of: None,
+        stalls: vec![],
+        cost_read_ns: 0,
     };
+    // in a third of the budget-only sims time also passes outside the searches: clock reads
+    // cost up to 5 ms each and the process is descheduled for 1 ms - 3 s at a few early reads
+    if forced.is_some() && rng.chance(1, 3) {
+        sc.cost_read_ns = rng.log_range(1_000, 5_000_000);
+        for _ in 0..rng.range(1, 4) {
+            sc.stalls.push((rng.range(1, 60), rng.log_range(1_000_000, 3_000_000_000)));
+        }
+    }
     // a game on the rules model (the engine's answers are not needed for this property:
     // the allocation depends on the position only through the side to move)
     let start = if rng.chance(1, 2) { Pos::startpos() } else { let p = gen::random_position(&mut rng); if p.is_valid() && !p.legal_moves().is_empty() { p } else { Pos::startpos() } };
@@ -484,6 +512,8 @@ fn generate_long(rng: &mut Rng) -> Scenario {
         forced_all: None,
         cost_node_ns: rng.log_range(1_000, 5_000),
         fresh_of: None,
+        stalls: vec![],
+        cost_read_ns: 0,
     };
     let start = loop {
         let p = gen::random_position(rng);
@@ -566,6 +596,8 @@ fn history_independence(sc: &Scenario, rep: &LoopReport, seed: u64) -> Option<Op
         forced_all: sc.forced_all,
         cost_node_ns: sc.cost_node_ns,
         fresh_of: None,
+        stalls: vec![],
+        cost_read_ns: sc.cost_read_ns,
     };
     let rep_f = run_explicit(&fresh);
     let armed_f = armed_budgets(&rep_f);
@@ -578,7 +610,7 @@ fn history_independence(sc: &Scenario, rep: &LoopReport, seed: u64) -> Option<Op
     // to compare its last clocked go with a fresh process
     let mut lines: Vec<String> = rep.exchanges[..=gi].iter().map(|x| x.line.clone()).collect();
     lines.push("quit".into());
-    let sc2 = Scenario { lines, twins: vec![], key_seed: sc.key_seed, forced_all: sc.forced_all, cost_node_ns: sc.cost_node_ns, fresh_of: Some(gi) };
+    let sc2 = Scenario { lines, twins: vec![], key_seed: sc.key_seed, forced_all: sc.forced_all, cost_node_ns: sc.cost_node_ns, fresh_of: Some(gi), stalls: sc.stalls.clone(), cost_read_ns: sc.cost_read_ns };
     Some(Some((
         "budget_depends_on_earlier_commands".into(),
         format!("'{}' after '{}' armed {:?} in this session but {:?} in a fresh process", rep.exchanges[gi].line, rep.exchanges[pos_i].line, ls, lf),
